@@ -53,6 +53,14 @@ var openURLs = []string{
 	"://",
 	"ws://[::1/unterminated",
 	"ws://example.test/redirect-me?to=foreign",
+	"ws://anything//evil.example:8080/ws",
+	"ws://example.test//evil.example/double-slash-path",
+	"//example.test//evil.example/x",
+	"///evil.example/triple",
+	"ws://example.test/%2F%2Fevil.example/escaped",
+	"ws://example.test/a/..//evil.example/x",
+	"ws://example.test/@evil.example/at",
+	"ws://example.test\\evil.example/backslash",
 	"/redirect-me/deeper?x=1",
 }
 
